@@ -1,12 +1,173 @@
 import Driver.Util
-/- Line-protocol handler for the `work` model (stub until the model exists). -/
+import Munge.Model.Work
+/-
+Line-protocol handler for the `Work` model (C12).
+
+  work run <n> <prog> <sched>
+      n      number of worker threads
+      prog   program of the accepting/stopping thread, comma separated:  q = work_queue (next item id),
+             w = work_wait, f0 / f1 = work_fini (wp, 0 / 1);  "-" = empty
+      sched  forced schedule, comma separated thread picks:  <k> = worker k takes its next step (a spurious
+             wake-up if it is blocked and was not signalled),  m or m<r> = the accepting thread takes its next
+             step (r selects which blocked worker a signal wakes);  "-" = empty.
+             A pick whose thread has no enabled step is skipped and reported as `x`.
+      After the forced schedule the run is completed deterministically without spurious wake-ups: the accepting
+      thread first, else the lowest-numbered worker that is runnable (not yet blocked, signalled, in work_func, or
+      blocked with a cancellation request pending).
+  output:  acts=<one of . x per pick> rets=<w:Q/P|f:Q/P;..> runs=<finished count per item> taken=<dequeue count per item> end=<..>
+      rets   at every return of work_wait / work_fini: Q = items accepted but never dequeued, P = dequeued but not finished
+      end    done (work_fini returned) | open (program exhausted without work_fini, nothing runnable) |
+             deadlock (a thread is blocked, nothing runnable) | crash | fuel
+-/
 namespace Driver.Work
+open Munge.Work
 
 structure St where
   dummy : Unit := ()
 
 def init : St := {}
 
-def step (st : St) (_args : List String) : St × String := (st, "bad-op")
+inductive MOp where
+  | q | w | f (d : Bool)
+deriving DecidableEq, Repr
+
+structure Run where
+  s : State
+  prog : List MOp
+  next : Nat := 0
+  rets : List String := []
+  /-- the accepting thread is inside work_wait (true) — used to recognise its return -/
+  inWait : Bool := false
+
+def P : Params := genParams
+
+def parseProg (t : String) : Option (List MOp) :=
+  if t == "-" then some [] else
+  (t.splitOn ",").mapM fun x =>
+    if x == "q" then some MOp.q else if x == "w" then some MOp.w
+    else if x == "f0" then some (MOp.f false) else if x == "f1" then some (MOp.f true) else none
+
+inductive Pick where
+  | main (r : Nat)
+  | wrk (k : Nat)
+
+def parseSched (t : String) : Option (List Pick) :=
+  if t == "-" then some [] else
+  (t.splitOn ",").mapM fun x =>
+    if x.startsWith "m" then
+      let r := (x.drop 1).toString
+      if r.isEmpty then some (Pick.main 0) else r.toNat?.map Pick.main
+    else x.toNat?.map Pick.wrk
+
+def snapshot (s : State) : String :=
+  let q := s.accepted.length - s.taken.length
+  let p := s.taken.length - s.done.length
+  s!"{q}/{p}"
+
+/-- the next action of the accepting thread, if it has one -/
+def mainAct (r : Run) (sel : Nat) : Option Act :=
+  match r.s.main with
+  | .accepting =>
+      match r.prog with
+      | [] => none
+      | .q :: _ => some (.enq r.next)
+      | .w :: _ => some .waitCall
+      | .f d :: _ => some (.fini d)
+  | .signalling => some (.sig sel)
+  | .waitFin _ _ => some .mainWake
+  | .cancelling _ => some .cancelOne
+  | .joining => some .join
+  | .finished => none
+
+def stepMain (r : Run) (sel : Nat) : Option Run :=
+  match mainAct r sel with
+  | none => none
+  | some a =>
+    match step P r.s a with
+    | none => none
+    | some s' =>
+      let r1 : Run := match a with
+        | .enq _ => { r with s := s', prog := r.prog.drop 1, next := r.next + 1 }
+        | .waitCall => { r with s := s', prog := r.prog.drop 1, inWait := true }
+        | .fini _ => { r with s := s', prog := r.prog.drop 1 }
+        | _ => { r with s := s' }
+      -- returns of work_wait / work_fini
+      let r2 : Run :=
+        if r1.inWait && s'.main == .accepting then
+          { r1 with inWait := false, rets := r1.rets ++ ["w:" ++ snapshot s'] }
+        else if s'.main == .finished then { r1 with rets := r1.rets ++ ["f:" ++ snapshot s'] }
+        else r1
+      some r2
+
+def stepWrk (r : Run) (k : Nat) : Option Run :=
+  (step P r.s (.wrk k)).map fun s' => { r with s := s' }
+
+def pick (r : Run) : Pick → Option Run
+  | .main sel => stepMain r sel
+  | .wrk k => stepWrk r k
+
+/-- the accepting thread can step without a spurious wake-up -/
+def mainReady (r : Run) : Bool :=
+  match r.s.main with
+  | .accepting => !r.prog.isEmpty
+  | .signalling => true
+  | .waitFin _ woken => woken
+  | .cancelling _ => true
+  | .joining => r.s.w.all (· == .cancelled)
+  | .finished => false
+
+def wrkReady (s : State) (k : Nat) : Bool :=
+  match s.w[k]? with
+  | some .starting => true
+  | some (.waitRecv woken) => woken || s.cancelReq k
+  | some (.working _) => true
+  | _ => false
+
+def firstReady (s : State) : Option Nat :=
+  (List.range s.w.length).find? (wrkReady s)
+
+def complete : Nat → Run → Run × String
+  | 0, r => (r, "fuel")
+  | fuel + 1, r =>
+    if r.s.w.any (· == .crashed) then (r, "crash") else
+    if mainReady r then
+      match stepMain r 0 with
+      | some r' => complete fuel r'
+      | none => (r, "stuck")
+    else match firstReady r.s with
+      | some k =>
+        match stepWrk r k with
+        | some r' => complete fuel r'
+        | none => (r, "stuck")
+      | none =>
+        let e := match r.s.main with
+          | .finished => "done"
+          | .accepting => "open"
+          | _ => "deadlock"
+        (r, e)
+
+def countOf (l : List Nat) (i : Nat) : Nat := l.count i
+
+def runScenario (n : Nat) (prog : List MOp) (sched : List Pick) : String :=
+  let r0 : Run := { s := Munge.Work.init n, prog := prog }
+  let (r1, acts) := sched.foldl (fun (acc : Run × String) p =>
+      match pick acc.1 p with
+      | some r' => (r', acc.2 ++ ".")
+      | none => (acc.1, acc.2 ++ "x")) (r0, "")
+  let (r2, e) := complete 100000 r1
+  let items := List.range r2.next
+  let runs := items.map fun i => toString (countOf r2.s.done i)
+  let taken := items.map fun i => toString (countOf (r2.s.taken.map Prod.snd) i)
+  let show' (l : List String) := if l.isEmpty then "-" else String.intercalate "," l
+  let rets := if r2.rets.isEmpty then "-" else String.intercalate ";" r2.rets
+  s!"acts={if acts.isEmpty then "-" else acts} rets={rets} runs={show' runs} taken={show' taken} end={e}"
+
+def step (st : St) (args : List String) : St × String :=
+  match args with
+  | ["run", n, prog, sched] =>
+    match n.toNat?, parseProg prog, parseSched sched with
+    | some n, some p, some sc => if n == 0 || n > 64 then (st, "bad-op") else (st, runScenario n p sc)
+    | _, _, _ => (st, "bad-op")
+  | _ => (st, "bad-op")
 
 end Driver.Work
